@@ -82,8 +82,11 @@ def native_playback(crate_dir, test_name, release, logfile, timeout=1200):
     text = open(logfile, errors="replace").read()
     ran = re.search(r"running (\d+) test", text)
     nran = sum(int(x) for x in re.findall(r"running (\d+) test", text))
-    failed = bool(re.search(r"test result: FAILED|panicked at|SIGSEGV|SIGABRT|stack overflow|signal: \d+", text))
-    passed = bool(re.search(r"test result: ok\. [1-9]", text))
+    # a failing playback shows up as a failed test, a panic message, an abort ("test exited abnormally"),
+    # a signal or a stack overflow - in every case the test binary ran (nran > 0) and cargo exits non-zero
+    failed = bool(re.search(r"test result: FAILED|panicked at|SIGSEGV|SIGABRT|stack overflow|signal: \d+|test exited abnormally|error: test failed", text)) \
+        or (nran > 0 and rc not in (0, None))
+    passed = bool(re.search(r"test result: ok\. [1-9]", text)) and rc == 0
     return {"rc": rc, "ran": nran, "failed": failed and nran > 0, "passed": passed and not failed, "tail": "\n".join(text.splitlines()[-25:])}
 
 
@@ -99,8 +102,14 @@ def replay_counterexample(h, r, scratch, prop, logdir):
            "functions": h.funcs, "bound": h.bound, "reproduced": False}
     # 1. ask CBMC for the concrete assignment
     log1 = os.path.join(logdir, h.name + ".playback-gen.log")
-    rc, _ = K.run_cargo_kani(crate_dir, target, h.name, log1, max(h.timeout, 600) * 2, h.mem_gb,
-                             list(h.args) + ["-Z", "concrete-playback", "--concrete-playback=print"], qname=h.qname)
+    base = list(r.get("extra_args") or h.args)
+    # --cbmc-args must stay last
+    if "--cbmc-args" in base:
+        k = base.index("--cbmc-args")
+        base = base[:k] + ["-Z", "concrete-playback", "--concrete-playback=print"] + base[k:]
+    else:
+        base = base + ["-Z", "concrete-playback", "--concrete-playback=print"]
+    rc, _ = K.run_cargo_kani(crate_dir, target, h.name, log1, max(h.timeout, 600) * 2, h.mem_gb, base, qname=h.qname)
     text = open(log1, errors="replace").read()
     test_src, test_name = extract_playback(text)
     all_mem = all(any(m in (c["desc"] or "") for m in MEMORY_SAFETY_MARKERS) for c in r["failed_checks"]
